@@ -128,6 +128,20 @@ def choose_sites(name, trace, tier, r, sampler):
 
     if not its:
         return []
+    # windows in which a flag and the data it describes are briefly out of step (both tiers, every occurrence):
+    # the lines of initialise_history, and the lines of a proposal's draw() that run right after the last sample
+    # of its pool was handed out (the reset of `populated` only executes then)
+    hist_sids = {i for i, s_ in enumerate(sites) if s_["qual"].endswith("initialise_history")}
+    reset_sids = {i for i, s_ in enumerate(sites)
+                  if s_["qual"].endswith(".draw") and s_["text"] == "self.populated = False"}
+    for e in range(1, n + 1):
+        sid = evs[e - 1]
+        if sid in hist_sids:
+            chosen.append((e, "window:history"))
+        elif sid in reset_sids:
+            for d in (2, 1, 0):
+                if e - d >= 1:
+                    chosen.append((e - d, "window:pool-exhausted"))
     light = [i for i in its if i not in heavy_it]
     heavy = [i for i in its if i in heavy_it]
     fin = [s for s in segs if s[3].startswith("finalise")]
@@ -200,9 +214,17 @@ def judge(world, out, site_rec):
         disk = os.path.join(out["dir"], "disk") if out.get("dir") else None
         want = done[-1]["sha"] if done else None
         got = site_rec.get("resume_sha")
-        if want != got:
+        got_old = site_rec.get("resume_old_sha")
+        # a signal that lands inside the write of the next boundary checkpoint may leave the last completed one
+        # under its `.old` name (save_existing_checkpoint=True: moved aside, new file not yet renamed), from where
+        # the resume loads it; what must never happen is that its bytes are gone or altered
+        begun = [r for r in recs if r["k"] == "ckpt_begin" and r["i"] == 0 and r["n"] < s["n"]]
+        in_flight = len(begun) > len(done)
+        intact = (want == got) or (in_flight and want is not None and want == got_old)
+        if not intact:
             v("C13-ins-checkpoint-intact", {"what": "iteration-boundary checkpoint changed or vanished",
-                                            "before": want, "after": got})
+                                            "before": want, "after": got, "after_old": got_old,
+                                            "checkpoint_in_flight": in_flight})
     if len(incs) < 2:
         return viol, {"harness_error": {"what": "no restart", "world": world}}
     last = incs[-1]
@@ -233,6 +255,7 @@ def signal_job(job):
         st = [r for r in out["records"] if r["k"] == "start" and r["i"] == 1]
         if st:
             site_rec["resume_sha"] = st[0].get("resume_sha")
+            site_rec["resume_old_sha"] = st[0].get("resume_old_sha")
     viol, info = judge(world, out, site_rec)
     import shutil
 
